@@ -87,7 +87,7 @@ EXPECT = [
     ("PS_x_startearly.cfg", "FutureWaits", "mutant: a stream of a future height runs at once", True),
 ]
 # actions that cannot fire in a configuration by construction
-COVER_IGNORE = {"PS_one_quick.cfg": ("Init", "Unblock", "DriverTakeFrom"), "PS_ascoded_q.cfg": ("Init", "DriverTakeFrom"),
+COVER_IGNORE = {"PS_one_quick.cfg": ("Init", "Unblock", "DriverTakeFrom", "SendDone"), "PS_ascoded_q.cfg": ("Init", "DriverTakeFrom"),
                 "PS_out0.cfg": ("Init", "Unblock", "SendDone", "DriverTake")}
 
 
@@ -111,8 +111,17 @@ def tlc_phase(ctx):
                     raise
                 vlib.log("TLC on %s died without a result, once more: %s" % (cfg, str(e).splitlines()[-1][:200] if str(e) else ""))
 
-    with ThreadPoolExecutor(max_workers=par) as ex:
-        results = list(ex.map(one, jobs))
+    # the largest configuration has 14 M distinct states: a 5 GB heap is ample, and two JVMs that may each
+    # grow to the default 12 GB get killed by the kernel on the shared machine
+    heap = os.environ.get("VERIF_TLC_HEAP")
+    if heap is None:
+        os.environ["VERIF_TLC_HEAP"] = "5g"
+    try:
+        with ThreadPoolExecutor(max_workers=par) as ex:
+            results = list(ex.map(one, jobs))
+    finally:
+        if heap is None:
+            os.environ.pop("VERIF_TLC_HEAP", None)
     n = 0
     for (cfg, label, expect), r in results:
         if expect is None:
